@@ -2,13 +2,15 @@
 
     Transcribes, at statement granularity,
     - [kvarn_async::write::response] (async/src/lib.rs): the head printer;
-    - [SendKind::send] (src/lib.rs): range application -> [ensure_length] -> [ensure_version] ->
-      [resolve_package] -> [ResponsePipe::send_response] (the [connection] header rule, head written)
-      -> body written unless the body is empty or the method is HEAD;
+    - [SendKind::send] (src/lib.rs): no body for 1xx/204/304 -> range application (not for a streamed
+      reply) -> [ensure_length] (not for a stream of unknown length; removes [transfer-encoding]) ->
+      [ensure_version] -> [resolve_package] -> [ResponsePipe::send_response] (the [connection] header rule,
+      head written) -> body written unless the body is empty or the method is HEAD -> the reply's future
+      ([stream_body], [with_future]) writes its chunks, unless the method is HEAD;
     - the request loop of [handle_connection] (src/lib.rs) for HTTP/1: host choice (409 + close),
       limiter ([Passed] / [Send] = 429 / [Drop] = close), one response per request, and what happens to
       a request body the handler did not read ([Http1Body::drain], added by the C08 repair; the code
-      before the repair is [drain = false]);
+      before the repair is [drain = false]), and the close after a streamed reply of unknown length;
     and defines the specification side: a strict response-stream parser [parse_responses] that consumes a
     concatenation of responses exactly, reading bodies by [content-length].
     Definitions only; proofs are in Proofs/Http1WriteProofs.v. *)
@@ -207,6 +209,45 @@ Fixpoint parse_responses (ms : list N) (s : bytes) : option (list presp) :=
       end
   end.
 
+(** the last response of a connection the server closes (RFC 9112 6.3): it may announce no length, its
+    body then is everything up to the end of the stream *)
+Definition parse_last (m : N) (s : bytes) : option presp :=
+  match split_crlf s with
+  | None => None
+  | Some (line, r1) =>
+      match parse_status_line line with
+      | None => None
+      | Some (v, st, rs) =>
+          match parse_header_block (S (length r1)) r1 with
+          | None => None
+          | Some (hs, r2) =>
+              if existsb (is_name s_transfer_encoding) hs then None else
+              if is_head_method m || bodyless_status st then
+                if announced_ok_bodyless hs then match r2 with [] => Some (mkP v st rs hs []) | _ => None end
+                else None
+              else
+                match filter (is_name s_content_length) hs with
+                | [] => Some (mkP v st rs hs r2)
+                | _ => match announced hs with
+                       | Some n => if N.of_nat (length r2) =? n then Some (mkP v st rs hs r2) else None
+                       | None => None
+                       end
+                end
+          end
+      end
+  end.
+(** responses framed by their lengths, then the last one, after which the stream ends *)
+Fixpoint parse_closing (ms : list N) (s : bytes) : option (list presp) :=
+  match ms with
+  | [] => None
+  | [m] => match parse_last m s with Some r => Some [r] | None => None end
+  | m :: ms' =>
+      match parse_one m s with
+      | None => None
+      | Some (r, rest) => match parse_closing ms' rest with Some rs => Some (r :: rs) | None => None end
+      end
+  end.
+
 (** ------------------------------------------------------------------------------------------
     C. the send path
     ------------------------------------------------------------------------------------------ *)
@@ -222,10 +263,13 @@ Fixpoint hm_insert (n v : bytes) (hs : list (bytes * bytes)) : list (bytes * byt
   | h :: r => if beq (fst h) n then (n, v) :: hm_remove n r else h :: hm_insert n v r
   end.
 
-(** what [handle_cache] returns ([CacheReply] without a future) *)
+(** what [handle_cache] returns ([CacheReply]).  [r0_future]: the reply streams (part of) its body
+    ([FatResponse::with_future] / [with_future_and_len], e.g. [extensions::stream_body]): the length it
+    announces, if any, and the chunks its future hands to [ResponseBodyPipe::send] *)
 Record reply0 := mkR0 {
   r0_version : N; r0_status : N; r0_headers : list (bytes * bytes); r0_body : bytes;
-  r0_sanitize : option (option (N * N)) }.     (* [sanitize_data]: None = Err, Some range = Ok *)
+  r0_sanitize : option (option (N * N));       (* [sanitize_data]: None = Err, Some range = Ok *)
+  r0_future : option (option N * list bytes) }.
 
 Record sent := mkSent { st_head : head; st_body : bytes }.    (* head written, body bytes written after it *)
 Definition wire (s : sent) : bytes := print_response (st_head s) (st_body s).
@@ -237,12 +281,24 @@ Definition observable (s : sent) : presp :=
 Definition method_has_response_body (m : N) : bool := (m =? M_GET) || (m =? M_POST) || (m =? M_OPTIONS).
 
 Definition s_keep_alive := B "keep-alive".
-(** [ResponsePipe::send_response], HTTP/1 arm: [connection] absent, unreadable or [close] -> [keep-alive] *)
-Definition connection_rule (hs : list (bytes * bytes)) : list (bytes * bytes) :=
+(** [HeaderMap::contains_key]; the names of a [HeaderMap] are lower-case, the comparison here ignores case *)
+Definition has_header (n : bytes) (hs : list (bytes * bytes)) : bool := existsb (is_name n) hs.
+(** nothing in the head tells where the body ends: the end of the connection has to *)
+Definition close_delimited_head (st : N) (hs : list (bytes * bytes)) : bool :=
+  negb (has_header s_content_length hs || has_header s_transfer_encoding hs || bodyless_status st).
+(** [ResponsePipe::send_response], HTTP/1 arm: a head without a length -> [close]; else
+    [connection] absent, unreadable or [close] -> [keep-alive] *)
+Definition connection_rule (st : N) (hs : list (bytes * bytes)) : list (bytes * bytes) :=
+  if close_delimited_head st hs then hm_insert s_connection (B "close") hs else
   match assoc s_connection hs with
   | Some v => if to_str_ok v && negb (beq v (B "close")) then hs else hm_insert s_connection s_keep_alive hs
   | None => hm_insert s_connection s_keep_alive hs
   end.
+(** [ResponsePipe::ensure_length], HTTP/1 arm: [set_content_length], and no [transfer-encoding] beside it
+    ([HeaderMap::remove] moves the last entry into the freed place; here the order is kept: no theorem and
+    no comparison depends on the order of headers of different names) *)
+Definition ensure_length (len : N) (hs : list (bytes * bytes)) : list (bytes * bytes) :=
+  hm_remove s_transfer_encoding (hm_insert s_content_length (dec len) hs).
 (** [ResponsePipe::ensure_version], HTTP/1 arm *)
 Definition ensure_version (v : N) : N := if (v =? 9) || (v =? 10) || (v =? 11) then v else 11.
 (** the condition under which [SendKind::send] writes the body *)
@@ -261,7 +317,7 @@ Section Send.
     mkR0 11 code
          ([(B "content-type", B "text/html; charset=utf-8"); (B "content-encoding", B "identity")]
           ++ match msg with Some m => if value_ok m then [(B "reason", m)] else [] | None => [] end)
-         (error_body code msg) None.
+         (error_body code msg) None None.
 
   (** [CriticalRequestComponents::apply_to_response] (not a stream) and the 416 replacement *)
   Definition apply_sanitize (r : reply0) : outcome reply0 :=
@@ -275,21 +331,58 @@ Section Send.
                        | None => r0_headers r
                        end in
             let hs2 := if r_accept_ranges x then hm_insert (B "accept-ranges") (B "bytes") hs1 else hs1 in
-            Ok (mkR0 (r0_version r) (r_status x) hs2 (r_body x) (r0_sanitize r))
+            Ok (mkR0 (r0_version r) (r_status x) hs2 (r_body x) (r0_sanitize r) (r0_future r))
         | Err _ => Ok (default_error 416 (Some (B "Range start after end of body")))
         | Panic => Panic
         end
     end.
 
+  (** a 1xx / 204 / 304 reply ends with its head: a body set by an extension is dropped *)
+  Definition clear_bodyless (r : reply0) : reply0 :=
+    if bodyless_status (r0_status r)
+    then mkR0 (r0_version r) (r0_status r) (r0_headers r) [] (r0_sanitize r) (r0_future r) else r.
+  (** what the reply's future writes ([ResponseBodyPipe::send] skips an empty chunk) *)
+  Definition stream_bytes (r : reply0) : bytes :=
+    match r0_future r with Some (_, chunks) => concat chunks | None => [] end.
+
   (** [SendKind::Send(pipe).send(response, request, host, address)] for a request of method [m] *)
   Definition send (m : N) (r : reply0) : outcome sent :=
-    obind (apply_sanitize r) (fun r1 =>
+    let r0 := clear_bodyless r in
+    (* [apply_to_response(.., is_stream)] does nothing for a streamed reply *)
+    obind (match r0_future r0 with Some _ => Ok r0 | None => apply_sanitize r0 end) (fun r1 =>
       let body := r0_body r1 in
-      let hs2 := hm_insert s_content_length (dec (N.of_nat (length body))) (r0_headers r1) in   (* ensure_length *)
+      let hs2 := match r0_future r1 with                                                         (* ensure_length *)
+                 | Some (None, _) => r0_headers r1
+                 | Some (Some len, _) => ensure_length len (r0_headers r1)
+                 | None => ensure_length (N.of_nat (length body)) (r0_headers r1)
+                 end in
       let v3 := ensure_version (r0_version r1) in                                                (* ensure_version *)
       let h4 := package (mkHead v3 (r0_status r1) hs2) in                                        (* resolve_package *)
-      let h5 := mkHead (hd_version h4) (hd_status h4) (connection_rule (hd_headers h4)) in      (* send_response *)
-      Ok (mkSent h5 (body_written m body))).
+      let h5 := mkHead (hd_version h4) (hd_status h4)
+                       (connection_rule (hd_status h4) (hd_headers h4)) in                       (* send_response *)
+      (* the future is not run for HEAD (unless the head switches protocols) *)
+      let streamed := if (m =? M_HEAD) && negb (hd_status h4 =? 101) then [] else stream_bytes r1 in
+      Ok (mkSent h5 (body_written m body ++ streamed))).
+
+  (** the same before the repairs 537474e (the future ran for HEAD too), feabc71 (a stream of unknown
+      length went out as keep-alive), b4638db (a body after 1xx/204/304) and c151144 (transfer-encoding
+      beside content-length): only the refutation witnesses use it *)
+  Definition send_v0 (m : N) (r : reply0) : outcome sent :=
+    obind (match r0_future r with Some _ => Ok r | None => apply_sanitize r end) (fun r1 =>
+      let body := r0_body r1 in
+      let hs2 := match r0_future r1 with
+                 | Some (None, _) => r0_headers r1
+                 | Some (Some len, _) => hm_insert s_content_length (dec len) (r0_headers r1)
+                 | None => hm_insert s_content_length (dec (N.of_nat (length body))) (r0_headers r1)
+                 end in
+      let v3 := ensure_version (r0_version r1) in
+      let h4 := package (mkHead v3 (r0_status r1) hs2) in
+      let hs5 := match assoc s_connection (hd_headers h4) with
+                 | Some v => if to_str_ok v && negb (beq v (B "close")) then hd_headers h4
+                             else hm_insert s_connection s_keep_alive (hd_headers h4)
+                 | None => hm_insert s_connection s_keep_alive (hd_headers h4)
+                 end in
+      Ok (mkSent (mkHead (hd_version h4) (hd_status h4) hs5) (body_written m body ++ stream_bytes r1))).
 
   (** the rate-limit answer of [handle_connection] ([LimitAction::Send]): [get_too_many_requests],
       ensure_length, ensure_version, send_response, body.  [head_rule = false] is the code before the C08
@@ -299,15 +392,15 @@ Section Send.
     let hs := [(B "content-type", B "text/html; charset=utf-8");
                (s_content_length, dec (N.of_nat (length too_many_body)));
                (B "content-encoding", B "identity")] in
-    let hs1 := hm_insert s_content_length (dec (N.of_nat (length too_many_body))) hs in
-    mkSent (mkHead 11 429 (connection_rule hs1))
+    let hs1 := ensure_length (N.of_nat (length too_many_body)) hs in
+    mkSent (mkHead 11 429 (connection_rule 429 hs1))
            (if head_rule && (m =? M_HEAD) then [] else too_many_body).
 
   (** the answer to a request for a host that does not exist: 409, then the connection is closed *)
   Definition no_host (head_rule : bool) (m : N) : sent :=
     let r := default_error 409 (Some (B "The host you're looking for wasn't found.")) in
-    let hs1 := hm_insert s_content_length (dec (N.of_nat (length (r0_body r)))) (r0_headers r) in
-    mkSent (mkHead 11 409 (connection_rule hs1))
+    let hs1 := ensure_length (N.of_nat (length (r0_body r))) (r0_headers r) in
+    mkSent (mkHead 11 409 (connection_rule 409 hs1))
            (if head_rule && (m =? M_HEAD) then [] else r0_body r).
 End Send.
 
@@ -327,6 +420,15 @@ Definition body_length (m : N) (cl : option bytes) : N :=
   match cl with
   | Some v => if to_str_ok v then match parse_u64 v with Some n => n | None => 0 end else 0
   | None => 0
+  end.
+
+(** [handle_connection]'s [close_delimited]: the reply streams a body of unknown length and does not frame it
+    itself with a [transfer-encoding] or a [content-length] of its own; the connection is closed after it *)
+Definition unframed (r : reply0) : bool :=
+  match r0_future r with
+  | Some (None, _) => negb (has_header s_transfer_encoding (r0_headers r))
+                      && negb (has_header s_content_length (r0_headers r))
+  | _ => false
   end.
 
 (** [utils::valid_method] || [utils::valid_version] on the first bytes of a head *)
@@ -395,7 +497,11 @@ Section Conn.
         | APassed =>
             let '(a', r, lim) := app a q in
             match send error_body (package q) m r with
-            | Ok s => (a', Some s, after_body h lim)
+            | Ok s => (a', Some s,
+                       match after_body h lim with
+                       | Unmodelled => Unmodelled
+                       | st => if unframed r then Closed else st    (* [reusable = drain ok && !close_delimited] *)
+                       end)
             | _ => (a', None, Closed)                      (* the connection task panicked *)
             end
         end
@@ -458,17 +564,65 @@ Record c8cfg := mkC8 {
   c8_base : config;                          (* Model/Fixture.v: cache, default_ext, ims, handlers, ... *)
   c8_files : list (bytes * bytes);           (* path under public/ (with the leading '/'), content *)
   c8_readers : list (bytes * N);             (* handler paths that call read_to_bytes(limit) *)
-  c8_limit : N }.                            (* limiter max_requests; 0 = disabled *)
+  c8_limit : N;                              (* limiter max_requests; 0 = disabled *)
+  (* handler paths whose reply carries a future: kind 0 = [extensions::stream_body] (the file of that path),
+     1 = [with_future] (no length), 2 = [with_future_and_len announced], 3 = [with_future] and a
+     [content-length: announced] header of the handler's own; the chunks the future writes *)
+  c8_streams : list (bytes * (N * N * list bytes)) }.
 
 (** [handle_request] below the handlers: GET/HEAD read the file (404 if there is none), every other method gets 405 *)
 Definition file_fat (content : bytes) : fat :=
   {| f_status := 200; f_headers := with_client_cache 3 []; f_body := content; f_spref := SP_FULL; f_compress := true |}.
+Fixpoint assocS (k : bytes) (l : list (bytes * (N * N * list bytes))) : option (N * N * list bytes) :=
+  match l with
+  | [] => None
+  | (k', v) :: r => if beq k k' then Some v else assocS k r
+  end.
+(** the head a streaming handler returns (its body is empty; nothing of it is stored in the response cache) *)
+Definition stream_fat (hs : list (bytes * bytes)) : fat :=
+  {| f_status := 200; f_headers := hs; f_body := []; f_spref := SP_NONE; f_compress := false |}.
+(** [extensions::stream_body] (after the repair 1d0a5e7: the range is cut at the end of the file; before, it
+    announced [end - start] of the request's range whatever the file holds): announced length and bytes *)
+Definition stream_body_future (clamp : bool) (content : bytes) (r : request) : option N * list bytes :=
+  let flen := N.of_nat (length content) in
+  let rg := match sanitize_range (header (B "range") r) with Ok (Some x) => Some x | _ => None end in
+  let start0 := match rg with Some (s, _) => s | None => 0 end in
+  let end0 := match rg with Some (_, e) => e | None => flen end in
+  let e := if clamp then N.min end0 flen else end0 in
+  let s := if clamp then N.min start0 e else start0 in
+  (Some (e - s), [firstn (N.to_nat (N.min e flen - N.min s (N.min e flen))) (skipn (N.to_nat s) content)]).
+(** the future of the reply to [r], if its path is a streaming handler's *)
+Definition stream_future (clamp : bool) (streams : list (bytes * (N * N * list bytes))) (files : list (bytes * bytes))
+    (r : request) : option (option N * list bytes) :=
+  match assocS (rq_path r) streams with
+  | None => None
+  | Some (kind, announced, chunks) =>
+      if kind =? 0 then
+        match assoc (rq_path r) files with
+        | Some content => Some (stream_body_future clamp content r)
+        | None => None
+        end
+      else if (kind =? 1) || (kind =? 3) then Some (None, chunks)
+      else Some (Some announced, chunks)
+  end.
+
 Definition compute_c08 (cfg : c8cfg) (hs : list N) (r : request) (ok : bool) : fat * list N * list bytes :=
   if negb ok then
     (* [sanitize_request] tests the path first *)
     ((if negb (path_part_ok (rq_path r)) then err_fat 400 (Some (B "path contains illegal segments (e.g. `./`)")) SP_NONE
       else err_fat 416 None SP_NONE), hs, [])
   else
+  match assocS (rq_path r) (c8_streams cfg) with
+  | Some (kind, announced, _) =>
+      (* a Prepare extension: it is run for every method *)
+      if kind =? 0 then
+        match assoc (rq_path r) (c8_files cfg) with
+        | Some _ => (stream_fat (with_client_cache 3 [(B "vary", B "range")]), hs, [])
+        | None => (err_fat 404 None SP_NONE, hs, [])     (* [default_error_response]: not stored *)
+        end
+      else (stream_fat (with_client_cache 3 ([(B "content-type", B "text/plain"); (B "x-tag", B "S")]
+                                             ++ (if kind =? 3 then [(s_content_length, dec announced)] else []))), hs, [])
+  | None =>
   match find_handler_last (rq_path r) (cf_handlers (c8_base cfg)) O None with
   | Some _ => compute_fix (cf_handlers (c8_base cfg)) hs r ok
   | None =>
@@ -478,6 +632,7 @@ Definition compute_c08 (cfg : c8cfg) (hs : list N) (r : request) (ok : bool) : f
         | None => (err_fat 404 None SP_FULL, hs, [])
         end
       else (err_fat 405 None SP_FULL, hs, [])          (* whether or not the file exists *)
+  end
   end.
 
 Definition c8_now : N := 500.
@@ -499,7 +654,9 @@ Definition c8_app (cfg : c8cfg) (st : c8_state) (r : request) : c8_state * reply
   let san := if sanitize_ok_fix r
              then match sanitize_range (header (B "range") r) with Ok rg => Some rg | _ => None end
              else None in
-  (st', mkR0 11 (rp_status rp) (rp_headers rp) (rp_body rp) san, assocN (rq_path r) (c8_readers cfg)).
+  (* a streaming handler is run - and its reply never comes from the cache - iff the request passes sanitize *)
+  let fut := if sanitize_ok_fix r then stream_future true (c8_streams cfg) (c8_files cfg) r else None in
+  (st', mkR0 11 (rp_status rp) (rp_headers rp) (rp_body rp) san fut, assocN (rq_path r) (c8_readers cfg)).
 
 (** the limiter of the fixture host: [check_every = 1], a reset interval longer than any run:
     the k-th request of the one client is [Passed] up to [max], answered 429 up to [3 max], then dropped *)
@@ -537,28 +694,44 @@ Definition d_file (x : xval) : option (bytes * bytes) :=
 Definition d_reader (x : xval) : option (bytes * N) :=
   match x with XL [XB p; XN l] => Some (p, l) | _ => None end.
 
+Definition d_stream (x : xval) : option (bytes * (N * N * list bytes)) :=
+  match x with
+  | XL [XB p; XN kind; XN announced; cs] =>
+      match d_list d_B cs with Some chunks => Some (p, (kind, announced, chunks)) | None => None end
+  | _ => None
+  end.
+
 Definition d_c8cfg (x : xval) : option c8cfg :=
   match d_config x, x with
   | Some b, XL l =>
       let fs := match kv_get (B "files") l with Some v => d_list d_file v | None => Some [] end in
       let rs := match kv_get (B "readers") l with Some v => d_list d_reader v | None => Some [] end in
+      let ss := match kv_get (B "streams") l with Some v => d_list d_stream v | None => Some [] end in
       let lim := match kv_get (B "limit") l with Some (XN n) => n | _ => 0 end in
-      match fs, rs with
-      | Some fs', Some rs' => Some (mkC8 b fs' rs' lim)
-      | _, _ => None
+      match fs, rs, ss with
+      | Some fs', Some rs', Some ss' => Some (mkC8 b fs' rs' lim ss')
+      | _, _, _ => None
       end
   | _, _ => None
   end.
 
 Definition c8_state0 (cfg : c8cfg) : c8_state := ([], repeat 0 (length (cf_handlers (c8_base cfg)) + 8)).
 
-Definition c8_run (drain head_rule : bool) (cfg : c8cfg) (reqs : list (c8req * bytes * nat))
+(** the request's content-length as [get_body_length_request] sees it: CONNECT and TRACE carry no body whatever
+    they declare (as GET / HEAD / OPTIONS, which [body_length] knows by their method codes) *)
+Definition c8_content_length (q : c8req) : option bytes :=
+  if starts_with (B "TRACE ") (q_raw_head q) || starts_with (B "CONNECT ") (q_raw_head q) then None
+  else header s_content_length (q_req q).
+
+Definition c8_run_hs (drain head_rule : bool) (cfg : c8cfg) (hs : list (hreq c8req))
   : list (option sent) * cstate :=
-  conn_run c8req c8_state (fun q => rq_method (q_req q)) (fun q => header s_content_length (q_req q))
+  conn_run c8req c8_state (fun q => rq_method (q_req q)) c8_content_length
            (fun q => negb (q_nohost q)) q_raw_head
            (fun st q => c8_app cfg st (q_req q)) hardcoded_error_body (fun _ h => h) TOO_MANY drain head_rule
-           (c8_state0 cfg) (Open [])
-           (with_actions (c8_limit cfg) 1 reqs).
+           (c8_state0 cfg) (Open []) hs.
+Definition c8_run (drain head_rule : bool) (cfg : c8cfg) (reqs : list (c8req * bytes * nat))
+  : list (option sent) * cstate :=
+  c8_run_hs drain head_rule cfg (with_actions (c8_limit cfg) 1 reqs).
 
 (** ---- xval interface ---- *)
 Definition x_headers (hs : list (bytes * bytes)) : xval := XL (map (fun h => XL [XB (fst h); XB (snd h)]) hs).
@@ -628,20 +801,31 @@ Definition run_parse (x : xval) : xval :=
 (** ---- the hypotheses of the theorems, as executable checks on a history of the fixture host ---- *)
 Definition is_nil {X} (l : list X) : bool := match l with [] => true | _ => false end.
 (** [reply_ok] of Proofs/Http1WriteProofs.v as a boolean *)
+(** a streamed reply: not a 1xx/204/304; an announced length is the length of what body and future
+    write; a stream of unknown length is not framed by the handler itself (no [transfer-encoding], no
+    [content-length] of its own) *)
+Definition stream_okb (r : reply0) : bool :=
+  match r0_future r with
+  | None => true
+  | Some (Some l, chunks) =>
+      negb (bodyless_status (r0_status r)) && (l =? N.of_nat (length (r0_body r) + length (concat chunks)))
+  | Some (None, _) =>
+      negb (bodyless_status (r0_status r)) && negb (has_header s_transfer_encoding (r0_headers r))
+      && negb (has_header s_content_length (r0_headers r))
+  end.
 Definition reply_okb (r : reply0) : bool :=
   (100 <=? r0_status r) && (r0_status r <=? 999) && negb (r0_version r =? 9)
   && forallb hdr_ok (r0_headers r) && forallb (fun h => beq (lower (fst h)) (fst h)) (r0_headers r)
-  && negb (existsb (is_name s_transfer_encoding) (r0_headers r))
-  && (negb (bodyless_status (r0_status r)) || is_nil (r0_body r))
   && match r0_sanitize r with
-     | Some (Some (s, e)) => (s <? e) || (N.of_nat (length (r0_body r)) <=? s)
+     | Some (Some (s, e)) => s <? e
      | _ => true
-     end.
+     end
+  && stream_okb r.
 Definition c8_politeb (h : hreq c8req) : bool :=
   negb (q_nohost (h_q c8req h))
   && match h_action c8req h with ADrop => false | _ => true end
   && (N.of_nat (length (h_body c8req h))
-      =? body_length (rq_method (q_req (h_q c8req h))) (header s_content_length (q_req (h_q c8req h)))).
+      =? body_length (rq_method (q_req (h_q c8req h))) (c8_content_length (h_q c8req h))).
 (** every request of the history is polite and every reply of the application along it is [reply_ok] *)
 Fixpoint c8_hyps (cfg : c8cfg) (st : c8_state) (hs : list (hreq c8req)) : bool :=
   match hs with
@@ -650,20 +834,63 @@ Fixpoint c8_hyps (cfg : c8cfg) (st : c8_state) (hs : list (hreq c8req)) : bool :
       c8_politeb h &&
       match h_action c8req h with
       | ASend => c8_hyps cfg st rest
-      | _ => let '(st', r, _) := c8_app cfg st (q_req (h_q c8req h)) in reply_okb r && c8_hyps cfg st' rest
+      | _ => let '(st', r, _) := c8_app cfg st (q_req (h_q c8req h)) in
+             reply_okb r && negb (unframed r) && c8_hyps cfg st' rest
+      end
+  end.
+(** the same for a history whose last request is answered by a stream of unknown length (after which the
+    server closes): [Some n] = the first such answer is the [n]-th of the history, everything before is as
+    [c8_hyps] demands, and that request was let through by the limiter *)
+Fixpoint c8_hyps_closing (cfg : c8cfg) (st : c8_state) (hs : list (hreq c8req)) (n : nat) : option nat :=
+  match hs with
+  | [] => None
+  | h :: rest =>
+      if negb (c8_politeb h) then None else
+      match h_action c8req h with
+      | ASend => c8_hyps_closing cfg st rest (S n)
+      | ADrop => None
+      | APassed =>
+          let '(st', r, _) := c8_app cfg st (q_req (h_q c8req h)) in
+          if negb (reply_okb r) then None
+          else if unframed r then Some (S n) else c8_hyps_closing cfg st' rest (S n)
       end
   end.
 
-(** what the property demands of a case: (n answers, the connection stays usable), and whether the history
-    is an instance of the theorems' hypotheses ([checked_history_is_instance]) *)
+(** the position of the first answer that is a stream of unknown length (whatever else the history contains) *)
+Fixpoint c8_first_unframed (cfg : c8cfg) (st : c8_state) (hs : list (hreq c8req)) (n : nat) : option nat :=
+  match hs with
+  | [] => None
+  | h :: rest =>
+      if q_nohost (h_q c8req h) then None else
+      match h_action c8req h with
+      | ASend => c8_first_unframed cfg st rest (S n)
+      | ADrop => None
+      | APassed =>
+          let '(st', r, _) := c8_app cfg st (q_req (h_q c8req h)) in
+          if unframed r then Some (S n) else c8_first_unframed cfg st' rest (S n)
+      end
+  end.
+
+(** what the property demands of a case: (n answers, the connection stays usable), whether the history
+    is an instance of the theorems' hypotheses ([checked_history_is_instance]), and whether it is one of
+    [checked_closing_history_is_instance]; fourth field: its n-th answer is a stream of unknown length, which the
+    server ends by closing the connection (what is sent after it is not answered) *)
 Definition run_expect (x : xval) : xval :=
   match x with
   | XL [c; XL rs] =>
       match d_c8cfg c, d_all d_c8req rs with
       | Some cfg, Some reqs =>
-          XL [x_nat (length reqs);
-              x_bool (negb (existsb (fun '(q, _, _) => q_nohost q) reqs));
-              x_bool (c8_hyps cfg (c8_state0 cfg) (with_actions (c8_limit cfg) 1 reqs))]
+          let hs := with_actions (c8_limit cfg) 1 reqs in
+          match c8_first_unframed cfg (c8_state0 cfg) hs O with
+          | Some n =>
+              (* n answers, the last one ended by the close; the requests after it are not answered *)
+              XL [x_nat n; x_bool false; x_bool false; x_bool true;
+                  x_bool (match c8_hyps_closing cfg (c8_state0 cfg) hs O with Some _ => true | None => false end)]
+          | None =>
+              XL [x_nat (length reqs);
+                  x_bool (negb (existsb (fun '(q, _, _) => q_nohost q) reqs));
+                  x_bool (c8_hyps cfg (c8_state0 cfg) hs); x_bool false; x_bool false]
+          end
       | _, _ => bad_input
       end
   | _ => bad_input
@@ -680,6 +907,18 @@ Definition run_print (x : xval) : xval :=
   | _ => bad_input
   end.
 
+(** the same for a stream the server ends after the last response *)
+Definition run_parse_closing (x : xval) : xval :=
+  match x with
+  | XL [ms; XB s] =>
+      match d_list d_N ms with
+      | Some ms' => x_option (x_list x_presp) (parse_closing ms' s)
+      | None => bad_input
+      end
+  | _ => bad_input
+  end.
+
 Definition http1write_table : list (bytes * (xval -> xval)) :=
   [ (B "h1w.conn", run_conn); (B "h1w.conn_v0", run_conn_v0); (B "h1w.parse", run_parse);
+    (B "h1w.parse_closing", run_parse_closing);
     (B "h1w.expect", run_expect); (B "h1w.print", run_print) ].
